@@ -94,7 +94,7 @@ class Job:
 def read_pages(d: Path) -> dict:
     if not d.is_dir():
         return {}
-    return {p.name: p.read_text(encoding="utf-8") for p in sorted(d.iterdir()) if p.is_file()}
+    return {p.name: p.read_bytes().decode("utf-8", errors="backslashreplace") for p in sorted(d.iterdir()) if p.is_file()}
 
 
 # ---------------------------------------------------------------------------------------------
@@ -1241,7 +1241,8 @@ def _run(ctx, sources, scratch):
                 ctx.violation(f"C19:rebuild-raises:{run}", f"docs/build.py main() into a pre-filled directory raised (run {run}): {RB.get(f'main{run}_error')}",
                     {"kind": "violation", "observed": RB.get(f"main{run}_error"), "traceback": RB.get(f"main{run}_traceback"), "replay_kind": "rebuild"})
         for which, label in (("gen_after1", "generation into a directory pre-filled with stale pages"),
-                ("gen", "second build into the directory left by the first build and its role step")):
+                ("gen", "second build into the directory left by the first build and its role step" if RB.get("main1_ok")
+                    else "build into a pre-filled directory (aborted before it finished)")):
             got = read_pages(jobs["rebuild"].dir / which)
             if not got:
                 continue
